@@ -312,6 +312,11 @@ class Ctx:
 
     # -- reporting -----------------------------------------------------------------------------
     def finish(self):
+        # fail closed: a proof-level check never ends quietly with undischarged (or uncounted) obligations
+        if (self.cov["obligations"] < 1 or self.cov["discharged"] != self.cov["obligations"]) and not any(v["kind"] == "proof" for v in self.violations):
+            sys.stderr.write(f"DIAG obligations={self.cov['obligations']} discharged={self.cov['discharged']} theorems={self.cov['theorems']} tie={self.tie_broken}\n")
+            self.tie_break("obligations not all discharged at the end of the run")
+            self.violation("proof", f"{self.cov['discharged']} of {self.cov['obligations']} proof obligations discharged", {"theorems": self.cov["theorems"]}, False)
         known = load_known()
         real = []
         known_hit = []
